@@ -742,54 +742,213 @@ def _raw_numbers(bio) -> dict:
 EMPTY_RAW = {"protos": [], "cores": [], "cands": [], "subs": [], "cand_protos": [], "region_cands": [], "region_subs": [], "regions": 0}
 
 
-def extract_regions(record, workdir: str = None, keep_text: bool = False) -> dict:
-    """ writes the region file of every region the way main.write_outputs does (one shared Biopython record),
-        reloads each file and projects it """
-    out = {"exc": "", "extracts": []}
+def _bio_digest(bio) -> str:
+    handle = io.StringIO()
+    SeqIO.write([bio], handle, "genbank")
+    return digest(handle.getvalue())
+
+
+def extract_regions(record, workdir: str = None, keep_text: bool = False) -> list:
+    """ writes the region file of every region the way main.write_outputs does (one Biopython record shared by all
+        regions), reloads each file and projects it; one result per region, each with the full record (secmet
+        projection and identity of the Biopython form) before and after that region's write """
+    results = []
     tmp = tempfile.mkdtemp(prefix="persist_", dir=workdir)
     try:
-        before = add_dna(project_record(record), record)
-        out["before"] = before
-        out["seq"] = seq_codes(record.seq)
+        codes = seq_codes(record.seq)
         bio = record.to_biopython()
         named_before = _named(record)
-        handle = io.StringIO()
-        SeqIO.write([bio], handle, "genbank")
-        out["bio_before"] = digest(handle.getvalue())
         for index, region in enumerate(record.get_regions()):
-            item = {"region": index + 1, "exc": "", "rec": EMPTY_REC, "seq": [], "raw": EMPTY_RAW, "pairs": [], "stage": "write"}
+            out = {"region": index + 1, "exc": "", "seq": codes, "before": add_dna(project_record(record), record),
+                   "bio_before": _bio_digest(bio), "after": EMPTY_REC, "bio_after": ""}
+            item = {"exc": "", "rec": EMPTY_REC, "seq": [], "raw": EMPTY_RAW, "pairs": [], "stage": "write", "topology": ""}
+            out["ex"] = item
             path = os.path.join(tmp, f"region{index + 1}.gbk")
             try:
                 region.write_to_genbank(filename=path, record=bio)
-                item["stage"] = "parse"
-                with open(path, encoding="utf-8") as text_handle:
-                    text = text_handle.read()
-                if keep_text:
-                    item["text"] = text
-                parsed = list(SeqIO.parse(io.StringIO(text), "genbank"))
-                item["raw"] = _raw_numbers(parsed[0])
-                item["seq"] = seq_codes(parsed[0].seq)
-                item["topology"] = str(parsed[0].annotations.get("topology", ""))
-                item["stage"] = "load"
-                loaded = Record.from_biopython(parsed[0], TAXON)
-                item["stage"] = "project"
-                item["rec"] = add_dna(project_record(loaded), loaded)
-                for key, feature in sorted(_named(loaded).items()):
-                    if key in named_before:
-                        item["pairs"].append({"type": key[0], "orig": project.loc(named_before[key].location),
-                                              "new": project.loc(feature.location)})
-                item["stage"] = "done"
             except Exception as err:  # pylint: disable=broad-except
-                item["exc"] = exc_text(err)
-            out["extracts"].append(item)
-        handle = io.StringIO()
-        SeqIO.write([bio], handle, "genbank")
-        out["bio_after"] = digest(handle.getvalue())
-        out["after"] = add_dna(project_record(record), record)
-    except Exception as err:  # pylint: disable=broad-except
-        out["exc"] = exc_text(err)
+                out["exc"] = exc_text(err)
+            out["after"] = add_dna(project_record(record), record)
+            out["bio_after"] = _bio_digest(bio)
+            if not out["exc"]:
+                try:
+                    item["stage"] = "parse"
+                    with open(path, encoding="utf-8") as text_handle:
+                        text = text_handle.read()
+                    if keep_text:
+                        item["text"] = text
+                    parsed = list(SeqIO.parse(io.StringIO(text), "genbank"))
+                    item["raw"] = _raw_numbers(parsed[0])
+                    item["seq"] = seq_codes(parsed[0].seq)
+                    item["topology"] = str(parsed[0].annotations.get("topology", ""))
+                    item["stage"] = "load"
+                    loaded = Record.from_biopython(parsed[0], TAXON)
+                    item["stage"] = "project"
+                    item["rec"] = add_dna(project_record(loaded), loaded)
+                    for key, feature in sorted(_named(loaded).items()):
+                        if key in named_before:
+                            item["pairs"].append({"type": key[0], "orig": project.loc(named_before[key].location),
+                                                  "new": project.loc(feature.location)})
+                    item["stage"] = "done"
+                except Exception as err:  # pylint: disable=broad-except
+                    item["exc"] = exc_text(err)
+            results.append(out)
     finally:
         for name in os.listdir(tmp):
             os.unlink(os.path.join(tmp, name))
         os.rmdir(tmp)
-    return out
+    return results
+
+
+# ---- cases ------------------------------------------------------------------------------------------------------
+MC_CFG = """SPECIFICATION Spec
+CONSTANTS
+  UniverseIds = {%(universes)s}
+  MaxAreas = %(max_areas)d
+  Faithful = %(faithful)s
+%(checks)s
+"""
+MC_INVARIANTS = ["ExtractsWellFormed", "ShiftPreservesBases", "ReloadGivesOneRegion", "ModelExtractAccepted", "MembersAreInside"]
+
+
+def mc_config(max_areas: int, universes=(1, 2, 3), faithful: bool = True, invariants=None, stutter: bool = True) -> str:
+    checks = "\n".join(f"INVARIANT {name}" for name in (MC_INVARIANTS if invariants is None else invariants))
+    if stutter:
+        checks += "\nPROPERTY RoundTripIsStutter"
+    return MC_CFG % {"universes": ", ".join(str(u) for u in universes), "max_areas": max_areas,
+                     "faithful": "TRUE" if faithful else "FALSE", "checks": checks}
+
+
+def norm_loc(loc) -> dict:
+    return {"parts": [list(p) for p in loc["parts"]], "strand": loc["strand"]}
+
+
+def norm_uni(uni) -> dict:
+    return {"L": uni["L"], "circ": uni["circ"],
+            "genes": [{"loc": norm_loc(g["loc"]), "core_for": list(g["core_for"]), "pay": g["pay"]} for g in uni["genes"]],
+            "areas": [{"kind": a["kind"], "core": norm_loc(a["core"]), "extent": norm_loc(a["extent"]), "product": a["product"],
+                       "pay": a["pay"]} for a in uni["areas"]]}
+
+
+def mc_cases(run, seed: int, want_regions: bool = False) -> list:
+    """ the states of a Persist_MC dump as cases {"uni", "hist", "seed", "phase"} """
+    from . import tlaval, tlc  # pylint: disable=import-outside-toplevel
+    universes = [norm_uni(u) for u in tlc.printed_value(run.out, "UNIVERSES")]
+    cases = []
+    for state in tlaval.read_dump(run.dump_path):
+        if state["phase"] == "genes" or (want_regions and state["phase"] not in ("regions", "done")):
+            continue
+        hist = [{"op": c["op"], "arg": c["arg"]} for c in state["hist"]]
+        cases.append({"uni": universes[state["u"] - 1], "hist": hist, "seed": seed, "phase": state["phase"], "sampled": False})
+    cases.sort(key=lambda c: json.dumps([c["uni"]["L"], c["hist"]]))
+    return cases
+
+
+def random_history(rng, uni: dict, length: int) -> list:
+    """ any call sequence the RecordSM spec enables (including the clearing calls) """
+    genes, protos, subs = set(), set(), set()
+    have_cands = have_regions = False
+    hist = []
+    for _ in range(length):
+        options = [("AddGene", g) for g in range(1, len(uni["genes"]) + 1) if g not in genes]
+        options += [("AddProto", a) for a in range(1, len(uni["areas"]) + 1) if uni["areas"][a - 1]["kind"] == "proto" and a not in protos]
+        options += [("AddSub", a) for a in range(1, len(uni["areas"]) + 1) if uni["areas"][a - 1]["kind"] == "sub" and a not in subs]
+        if protos and not have_cands and not have_regions:
+            options += [("CreateCandidates", 0)] * 3
+        if not have_regions and (have_cands or subs):
+            options += [("CreateRegions", 0)] * 3
+        if have_regions:
+            options.append(("ClearRegions", 0))
+        if subs:
+            options.append(("ClearSubs", 0))
+        if have_cands:
+            options.append(("ClearCands", 0))
+        if protos:
+            options.append(("ClearProtos", 0))
+        if not options:
+            break
+        op, arg = rng.choice(options)
+        hist.append({"op": op, "arg": arg})
+        if op == "AddGene":
+            genes.add(arg)
+        elif op == "AddProto":
+            protos.add(arg)
+        elif op == "AddSub":
+            subs.add(arg)
+        elif op == "CreateCandidates":
+            have_cands = True
+        elif op == "CreateRegions":
+            have_regions = True
+        elif op == "ClearRegions":
+            have_regions = False
+        elif op == "ClearSubs":
+            subs.clear()
+            have_regions = have_regions and have_cands
+        elif op == "ClearCands":
+            have_cands = False
+            have_regions = have_regions and bool(subs)
+        elif op == "ClearProtos":
+            protos.clear()
+            have_cands = False
+            have_regions = have_regions and bool(subs)
+    return hist
+
+
+def _same_place(a: dict, b: dict) -> bool:
+    return a["kind"] == b["kind"] and a["extent"] == b["extent"]
+
+
+def features(uni: dict, hist: list) -> list:
+    """ feature literals of the abstract input (universe restricted to what the history adds) """
+    genes = [uni["genes"][c["arg"] - 1] for c in hist if c["op"] == "AddGene"]
+    areas = []
+    for call in hist:
+        if call["op"] in ("AddProto", "AddSub"):
+            areas.append(uni["areas"][call["arg"] - 1])
+        elif call["op"] == "ClearProtos":
+            areas = [a for a in areas if a["kind"] != "proto"]
+        elif call["op"] == "ClearSubs":
+            areas = [a for a in areas if a["kind"] != "sub"]
+    feats = ["circular" if uni["circ"] else "linear"]
+    if any(spans_origin(a["extent"]) for a in areas):
+        feats.append("area_spans_origin")
+    if any(spans_origin(g["loc"]) for g in genes):
+        feats.append("gene_spans_origin")
+    protos = [a for a in areas if a["kind"] == "proto"]
+    subs = [a for a in areas if a["kind"] == "sub"]
+    if any(_same_place(a, b) for i, a in enumerate(protos) for b in protos[i + 1:]):
+        feats.append("equal_coordinate_protoclusters")
+    if any(_same_place(a, b) for i, a in enumerate(subs) for b in subs[i + 1:]):
+        feats.append("equal_coordinate_subregions")
+    if any(a["pay"] == 1 for a in protos):
+        feats.append("sideloaded_protocluster")
+    if any(a["pay"] == 1 for a in subs):
+        feats.append("sideloaded_subregion")
+    if any(sum(e - s for s, e in a["extent"]["parts"]) == uni["L"] for a in areas):
+        feats.append("area_covers_whole_record")
+    # on a ring, areas that together leave no gap of at least half the record make spans and their order ambiguous
+    if uni["circ"] and areas:
+        covered = set()
+        for area in areas:
+            for start, end in area["extent"]["parts"]:
+                covered.update(range(start, end))
+        gap = best = 0
+        for pos in list(range(uni["L"])) * 2:
+            gap = 0 if pos in covered else gap + 1
+            best = max(best, gap)
+        if 2 * min(best, uni["L"]) <= uni["L"]:
+            feats.append("areas_reach_around_half_the_ring")
+    for pay, name in ((1, "input_style_gene"), (2, "codon_start"), (6, "codon_start"), (3, "gene_functions"), (4, "nrps_pks_domains"), (5, "prepeptide")):
+        if any(g["pay"] == pay for g in genes):
+            feats.append(name)
+    ops = [c["op"] for c in hist]
+    if "CreateRegions" in ops and ops.index("CreateRegions") < max([i for i, op in enumerate(ops) if op == "AddGene"], default=-1):
+        feats.append("gene_added_after_regions")
+    if any(op.startswith("Clear") for op in ops):
+        feats.append("clearing_calls")
+    return sorted(set(feats))
+
+
+def call_text(case: dict) -> str:
+    return (f"d, exc = harness.persist.build_record(uni, hist, seed={case['seed']}); record = d.record  "
+            f"with uni={json.dumps(case['uni'])} hist={json.dumps(case['hist'])}")
